@@ -81,11 +81,17 @@ let () =
           | [], [fin] ->
               (* final observation: END|iter|rev|eqclone|eqpad|eqmod *)
               (match String.split_on_char '|' fin with
-               | ["END"; it; rv; eqc; eqp; eqm] ->
+               | ["END"; it; rv; eqc; eqp; eqm; mixed; mixed_mut; into; itok] ->
                    let tfin = (match z_t_run cn [] ops with Ok t -> t | _ -> []) in
                    let sfin = (match z_s_run cn s pads O [] ops with Ok st -> st | _ -> []) in
                    if it <> show_table tfin then set_v "PROPFAIL iter-order";
                    if rv <> show_table (List.rev tfin) then set_v "PROPFAIL rev-iter-order";
+                   let pat = List.init (List.length tfin) (fun i -> i mod 3 <> 1) in
+                   let exp_mixed = show_table (z_take_mixed pat tfin) in
+                   if mixed <> exp_mixed then set_v "PROPFAIL double-ended-iter";
+                   if mixed_mut <> exp_mixed then set_v "PROPFAIL double-ended-iter-mut";
+                   if into <> show_table tfin then set_v "PROPFAIL into-iter-order";
+                   if itok <> "1" then set_v "PROPFAIL iterator-len-or-fuse";
                    if eqc <> "1" then set_v "PROPFAIL clone-not-equal";
                    if eqp <> "1" then set_v "PROPFAIL eq-depends-on-padding";
                    let has_cell = (tfin <> [] && c > 0) in
